@@ -16,7 +16,7 @@ from __future__ import annotations
 import ast
 
 from .. import algebra as al
-from ..astutil import dotted, src, walk_local, local_assignments, calls, dominating_guards, conjuncts, op_test
+from ..astutil import preceding_exit_guards, dotted, src, walk_local, local_assignments, calls, dominating_guards, conjuncts, op_test
 from ..dispatch import operand_slots
 from ..logic import formula, all_assignments
 from ..report import AnalysisError, Frag
@@ -76,7 +76,13 @@ def _alignment(prog, rep, factories):
                 rep.ob("R03.1", f"{fi.name}:indices", ok, "indices = column of each of the node's own variables, looked up by name" if ok else f"indices are built as `{s[:60]}`: not a lookup of the node's variables in the caller's column map", loc=f"{fi.module.rel}:{v.lineno}", detail=f"indices@{v.lineno - fi.node.lineno > 40}")
     # general paths
     cg = prog.func("optyx.core.compiler:compile_gradient")
-    ok = any(isinstance(n_, ast.ListComp) and src(n_.elt).startswith("gradient(expr, ") and src(n_.generators[0].iter) == "variables" for n_ in walk_local(cg.node))
+    from .common import helper_closure
+    ok = False
+    for f_ in helper_closure(prog, cg, depth=2):
+        ps = [a.arg for a in f_.node.args.args]
+        if len(ps) >= 2 and any(isinstance(n_, ast.ListComp) and src(n_.elt).startswith(f"gradient({ps[0]}, ") and src(n_.generators[0].iter) == ps[1] and src(n_.elt) == f"gradient({ps[0]}, {src(n_.generators[0].target)})" for n_ in walk_local(f_.node)):
+            # a helper must be handed compile_gradient's own (expr, variables)
+            ok = f_ is cg or any(isinstance(c, ast.Call) and dotted(c.func) == f_.name and [src(a) for a in c.args[:2]] == [a.arg for a in cg.node.args.args[:2]] for c in walk_local(cg.node))
     rep.pin("general derivative paths", "R03.1", "compile_gradient", ok, "entry j is d/d variables[j]" if ok else "general gradient is not [gradient(expr, var) for var in variables]", loc=cg.loc, detail="general")
     cj = prog.func("optyx.core.autodiff:compute_jacobian")
     ok = "[gradient(expr, var) for var in variables]" in src(cj.node) and "expr.jacobian_row(variables)" in src(cj.node)
@@ -89,16 +95,24 @@ def _alignment(prog, rep, factories):
 
 # ------------------------------------------------------------------------------------------------ R03.2 / R03.3
 def _is_full_guarded(cl, fi):
-    """Is the closure defined under the full-vector guard (directly, or through the local `is_full`)?"""
+    """Is the closure defined only when the full-vector test holds: under `if <full test>` (directly, or through a
+    local boolean bound once to it), or after an earlier `if not <full test>: return ...`."""
     assigns = local_assignments(fi.node)
-    for test, pol in dominating_guards(cl):
+
+    def is_full_test(test):
         t = src(test)
-        if pol and all(p in t for p in FULL_GUARD_PARTS):
+        if all(p in t for p in FULL_GUARD_PARTS):
             return True
-        if pol and t == "is_full":
-            vals = [src(v) for v in assigns.get("is_full", []) if isinstance(v, ast.AST)]
-            if vals and all(all(p in v for p in FULL_GUARD_PARTS) for v in vals):
-                return True
+        if isinstance(test, ast.Name):
+            vals = [src(v) for v in assigns.get(test.id, []) if isinstance(v, ast.AST)]
+            return bool(vals) and all(all(p in v for p in FULL_GUARD_PARTS) for v in vals)
+        return False
+
+    for test, pol in dominating_guards(cl) + preceding_exit_guards(cl):
+        if pol and is_full_test(test):
+            return True
+        if not pol and isinstance(test, ast.UnaryOp) and isinstance(test.op, ast.Not) and is_full_test(test.operand):
+            return True
     return False
 
 
